@@ -38,7 +38,7 @@ def murmurhash(key, seed) -> int:
     length = len(key)
     n, t = divmod(length, 4)
 
-    h = seed
+    h = np.int64(seed)
     c1 = 0xcc9e2d51
     c2 = 0x1b873593
 
